@@ -218,17 +218,12 @@ namespace mustache {
 
         SharedComponentsInfo merge(const SharedComponentsInfo& oth) const noexcept {
             // TODO: check me!
-            SharedComponentsInfo result;
-            result.mask_ = oth.mask_.merge(mask_);
-            result.data_ = oth.data_;
-            for (const auto& id : data_) {
-                result.data_.push_back(id);
+            // everything of `oth`, then the entries of this descriptor (which win for a type both have);
+            // mask_, ids_ and data_ stay aligned because every entry goes through add()
+            SharedComponentsInfo result = oth;
+            for (uint32_t i = 0; i < ids_.size(); ++i) {
+                result.add(ids_[i], data_[i]);
             }
-
-            for (const auto& id : ids_) {
-                result.ids_.push_back(id);
-            }
-
             return result;
         }
 
